@@ -186,6 +186,8 @@ class Gen:
         self.group = {}     # object -> group of shallow copies (copy.copy): they share the state point, so a state
                             # point change through one of them re-keys all of them
         self.hasdoc = set()  # objects whose `_document` exists (a shallow copy would share it)
+        self.nosp = set()    # objects opened by id whose state point may never have been loaded: by design such an object
+                             # cannot re-create its job after remove() (JobsCorruptedError) - not used again after one
         files = [0] + rng.sample([1, 2, 3], nfiles - 1) if nfiles > 1 else [rng.choice([0, 1])]
         for f in files:
             for _ in range(rng.randint(1, nhandles)):
@@ -205,6 +207,8 @@ class Gen:
         if (f in self.dirs or (f % 10 == 0 and any(g // 10 == f // 10 for g in self.dirs))) and rng.random() < 0.6:
             how = rng.choice([HOW_ITER, HOW_ID, HOW_GETJOB, HOW_GETJOB, HOW_GETJOB_REL]) if f % 10 else HOW_GETJOB
         self.items.append(["open", j, f, self.prov[j], how])
+        if how != HOW_SP and f % 10:
+            self.nosp.add(j)
         self.fid[j] = f
         self.pobj[j] = j
         self.group[j] = j
@@ -218,6 +222,7 @@ class Gen:
             return None
         jn = self.nj
         self.nj += 1
+        self.nosp.discard(j0)                              # copying instantiates the state point
         self.items.append(["copy", jn, j0, self.fid[j0], self.prov[j0]])
         self.fid[jn] = self.fid[j0]
         self.pobj[jn] = self.pobj[j0]
@@ -305,6 +310,7 @@ class Gen:
                     else:
                         self.ref.pop(f + 10, None)
                     self.fid[j] = f + 10
+                    self.nosp.discard(j)
                     self.hasdoc.discard(j)
                     self.group[j] = ("moved", j, len(self.items))  # detached from its shallow copies
                     self.pobj[j] = ("moved", j, len(self.items))   # the destination project's object
@@ -319,11 +325,12 @@ class Gen:
                     self.dirs.discard(f)
                     self.ref.pop(f, None)
                     self.hasdoc.discard(j)
-                    for x in others:
+                    for x in others + ([j] if j in self.nosp else []):
                         self.live.remove(x)
                 return True
             f2 = rng.choice([x for x in (1, 2, 3) if x != f % 10]) + (f // 10) * 10
             self.items.append(["rekey", j, f2])
+            self.nosp.discard(j)
             if f not in self.dirs:
                 # not initialised: only the id changes (for every shallow copy as well); other objects stay on f
                 for x in [x for x in self.live if x != j and self.fid[x] == f and self.group[x] == self.group[j]]:
@@ -428,13 +435,35 @@ def is_life(i):
 
 
 def strip_life(items):
-    """The program without lifecycle items; open-by-id handles (legal only because of them) and their uses go too."""
-    byid = {i[1] for i in items if i[0] == "openid"}
-    out = [i for i in items if not is_life(i) and i[0] not in ("openid", "follow") and not (i[0] in ("op", "opl") and i[1] in byid)
-           and not (i[0] == "opl" and i[4] in byid)]
-    # inside blocks the statement is written with the plain value (its extra loads of the viewed document would
-    # matter for the buffer's flush timing)
-    return [["op"] + i[1:4] if i[0] == "opl" else i for i in out]
+    """The program without lifecycle items; open-by-id handles (legal only because of them) and their uses go too.
+    Shallow copies: without the lifecycle items an object stays on the job it was opened for, and a copy is kept only
+    if - in the stripped order - its original has not accessed its document yet (else the two would share one
+    document handle, which the programs do not contain)."""
+    gone = {i[1] for i in items if i[0] == "openid"}
+    fid, hasdoc, out = {}, set(), []
+    for i in items:
+        k = i[0]
+        if is_life(i) or k in ("openid", "follow"):
+            continue
+        if k == "open":
+            fid[i[1]] = i[2]
+        elif k == "copy":
+            if i[2] in gone or i[2] in hasdoc or i[2] not in fid:
+                gone.add(i[1])
+                continue
+            fid[i[1]] = fid[i[2]]
+            i = ["copy", i[1], i[2], fid[i[2]], i[4]]
+        elif k in ("op", "opl"):
+            if i[1] in gone or (k == "opl" and i[4] in gone):
+                continue
+            hasdoc.add(i[1])
+            if k == "opl":
+                hasdoc.add(i[4])
+                # inside blocks the statement is written with the plain value (its extra loads of the viewed document
+                # would matter for the buffer's flush timing)
+                i = ["op"] + i[1:4]
+        out.append(i)
+    return out
 
 
 def closes_blocks(i):
